@@ -29,7 +29,7 @@ def strip_comments(src):
 
 
 PUNCT = ["<<=", ">>=", "..=", "...", "::", "->", "=>", "==", "!=", "<=", ">=", "&&", "||", "+=", "-=", "*=", "/=", "%=", "^=", "&=", "|=",
-         "<<", ">>", "..", "+", "-", "*", "/", "%", "^", "&", "|", "!", "=", "<", ">", "(", ")", "[", "]", "{", "}", ",", ";", ":", ".", "#"]
+         "<<", ">>", "..", "+", "-", "*", "/", "%", "^", "&", "|", "!", "=", "<", ">", "(", ")", "[", "]", "{", "}", ",", ";", ":", ".", "#", "?"]
 INT_SUFFIX = "u8|u16|u32|u64|u128|usize|i8|i16|i32|i64|i128|isize"
 TOK_RE = re.compile(r"(?P<ws>\s+)|(?P<str>\x22(?:[^\x22\\]|\\.)*\x22)|(?P<float>[0-9][0-9_]*\.[0-9][0-9_]*(?:f64|f32)?)|(?P<num>(?:0x[0-9a-fA-F_]+|[0-9][0-9_]*)(?:%s)?)|(?P<id>[A-Za-z_][A-Za-z0-9_]*)|(?P<p>%s)"
                     % (INT_SUFFIX, "|".join(re.escape(p) for p in PUNCT)))
@@ -3308,6 +3308,9 @@ def gen_all(repo):
             elif spec.get("rng_mode"):        # phase 4j: BlakeRNG + samplers (tools/rs2lean_rng.py)
                 import rs2lean_rng
                 res[name] = rs2lean_rng.generate(sys.modules[__name__], tr, spec)
+            elif spec.get("ser_mode"):        # phase 4i: stream programs of src/serialize.rs (tools/rs2lean_ser.py)
+                import rs2lean_ser
+                res[name] = rs2lean_ser.generate(sys.modules[__name__], tr, spec)
             else: res[name] = ladder_file(tr, spec) if spec.get("ladder") else tr.run_file(spec)
         except (Unsupported, SystemExit) as ex: res[name] = GenFailed(str(ex))
         except Exception as ex: res[name] = GenFailed("translator error: %s: %s" % (type(ex).__name__, ex))
@@ -3838,8 +3841,9 @@ TABLE_EVALCT += [
      "panic_escape": True},
 ]
 for _n, _sp in FILES:
-    if _n == "EvalFns.lean" and "Heathcliff.Model.Scheme" not in _sp["imports"]: _sp["imports"] = _sp["imports"] + ["Heathcliff.Model.Scheme"]# ------------------------------------------------------------------------------------------------------------------------------------
-
+    if _n == "EvalFns.lean" and "Heathcliff.Model.Scheme" not in _sp["imports"]: _sp["imports"] = _sp["imports"] + ["Heathcliff.Model.Scheme"]
+# Gen/SerFns.lean (phase 4i, stream mode - tools/rs2lean_ser.py): the serializers of src/serialize.rs as writer / reader / size programs
+FILES += [("SerFns.lean", {"ns": "GenS", "ser_mode": True})]
 # ------------------------------------------------------------------------------------------------------------------------------------
 # Phase 4j (worker R): the seeded generator and the samplers (tools/rs2lean_rng.py, "rng mode"; notes/work7-R.md)
 RG = "src/util/random_generator.rs"; RW = "src/util/rlwe.rs"
